@@ -1164,3 +1164,23 @@ def _c18_replay(rep, path, server, cachegen, codes, wd):
     finally:
         g.stop()
     return rep.finish()
+
+
+# ============================================================================================== C15, C17, C20 (check/fault_checks.py)
+
+def run_c15(tier, seed, replay=None, theorems=None, module=None):
+    """C15: after a completed /updateCache the server answers like one freshly started on the files now on disk (check/fault_checks.py)"""
+    from . import fault_checks
+    return fault_checks.run_c15(tier, seed, replay, theorems=theorems, module=module)
+
+
+def run_c17(tier, seed, replay=None, theorems=None, module=None):
+    """C17: missing / truncated / corrupt / inconsistent cache files never crash the server (check/fault_checks.py)"""
+    from . import fault_checks
+    return fault_checks.run_c17(tier, seed, replay, theorems=theorems, module=module)
+
+
+def run_c20(tier, seed, replay=None, theorems=None, module=None):
+    """C20: walking-router failures degrade to error answers, never to a dead server (check/fault_checks.py)"""
+    from . import fault_checks
+    return fault_checks.run_c20(tier, seed, replay, theorems=theorems, module=module)
